@@ -28,7 +28,7 @@ def healthy(scenario):
 
 def route(scenario):
     life = MLife()
-    return [life, MCarry(), MDrain(life), MEscape(), MRoute(scenario), MRef(scenario)]
+    return [life, MCarry(), MDrain(life), MEscape(), MRoute(scenario), MRef(scenario)] + ([MChild(scenario)] if scenario.get("child_form") else [])
 
 SETS = {"route": route, "healthy": healthy, "base": base, "full": full, "crash": crash, "timing": timing, "child": child}
 
